@@ -145,6 +145,12 @@ func refOpen(gcm bool, key, iv, mac []byte, seq []byte, typ byte, ver [2]byte, f
 // refSeal protects one fragment (used by the harness to inject correctly protected records).
 // explicit: 8-byte explicit nonce (GCM) or 16-byte IV (CBC).
 func refSeal(gcm bool, key, iv, mac []byte, seq []byte, typ byte, ver [2]byte, explicit, pt []byte) []byte {
+	return refSealPad(gcm, key, iv, mac, seq, typ, ver, explicit, pt, 0)
+}
+
+// refSealPad is refSeal with extraBlocks additional 16-byte blocks of CBC padding (the standard
+// allows up to 255 padding bytes; the library's own writer always uses the minimum).
+func refSealPad(gcm bool, key, iv, mac []byte, seq []byte, typ byte, ver [2]byte, explicit, pt []byte, extraBlocks int) []byte {
 	blk, _ := sm4.NewCipher(key)
 	if gcm {
 		a, _ := cipher.NewGCM(blk)
@@ -156,6 +162,10 @@ func refSeal(gcm bool, key, iv, mac []byte, seq []byte, typ byte, ver [2]byte, e
 	pad := 16 - (len(body)+1)%16
 	if pad == 16 {
 		pad = 0
+	}
+	pad += 16 * extraBlocks
+	if pad > 255 {
+		pad -= 16 * ((pad - 255 + 15) / 16)
 	}
 	for i := 0; i <= pad; i++ {
 		body = append(body, byte(pad))
